@@ -187,4 +187,278 @@ theorem filter_eq_nil_of_not_any {l : List Str} (h : l.any (· == restText) = fa
   rw [List.any_eq_false] at h
   exact h a ha
 
+/-! ### §6 attribute runs -/
+
+theorem takeRun_le (pred : Attr → Bool) (l : List AttrIn) : takeRun pred l ≤ l.length := by
+  induction l with
+  | nil => simp [takeRun]
+  | cons a r ih =>
+    simp only [takeRun, List.length_cons]
+    split
+    · split
+      · omega
+      · split <;> omega
+    · omega
+
+theorem takeRun_pos (pred : Attr → Bool) (a : AttrIn) (r : List AttrIn) (h : pred a.attr = true) :
+    takeRun pred (a :: r) ≥ 1 := by
+  simp only [takeRun, h, if_true]
+  split
+  · omega
+  · split <;> omega
+
+theorem takeRun_pred (pred : Attr → Bool) (l : List AttrIn) :
+    ∀ a ∈ l.take (takeRun pred l), pred a.attr = true := by
+  induction l with
+  | nil => simp [takeRun]
+  | cons a r ih =>
+    by_cases hp : pred a.attr = true
+    · simp only [takeRun, hp, if_true]
+      intro x hx
+      split at hx
+      · simp at hx; subst hx; exact hp
+      · split at hx
+        · simp at hx; subst hx; exact hp
+        · have : (1 + takeRun pred r) = takeRun pred r + 1 := by omega
+          rw [this, List.take_succ_cons] at hx
+          simp only [List.mem_cons] at hx
+          rcases hx with hx | hx
+          · subst hx; exact hp
+          · exact ih x hx
+    · simp [takeRun, hp]
+
+theorem deriveSeqIn_append (xs ys : List AttrIn) : deriveSeqIn (xs ++ ys) = deriveSeqIn xs ++ deriveSeqIn ys := by
+  induction xs with
+  | nil => simp [deriveSeqIn]
+  | cons a r ih =>
+    simp only [List.cons_append, deriveSeqIn]
+    split <;> simp [ih]
+
+theorem deriveSeqIn_docs (xs : List AttrIn) (h : ∀ a ∈ xs, a.attr.isDocComment = true) :
+    deriveSeqIn xs = xs.map (fun _ => none) := by
+  induction xs with
+  | nil => simp [deriveSeqIn]
+  | cons a r ih =>
+    have ha := h a (by simp)
+    have := ih (fun x hx => h x (by simp [hx]))
+    cases hattr : a.attr <;> simp [hattr, Attr.isDocComment] at ha
+    simp [deriveSeqIn, hattr, this]
+
+theorem deriveSeqIn_derives (xs : List AttrIn) (ps : List Str) (h : collectPaths xs = some ps) :
+    deriveSeqIn xs = ps.map some := by
+  induction xs generalizing ps with
+  | nil => simp [collectPaths] at h; subst h; simp [deriveSeqIn]
+  | cons a r ih =>
+    unfold collectPaths at h
+    cases hattr : a.attr with
+    | derive o =>
+      cases o with
+      | none => simp [hattr] at h
+      | some p =>
+        cases hr : collectPaths r with
+        | none => simp [hattr, hr] at h
+        | some q =>
+          simp [hattr, hr] at h
+          subst h
+          simp [deriveSeqIn, hattr, ih q hr]
+    | docComment t => simp [hattr] at h
+    | docAttr i v => simp [hattr] at h
+    | other t => simp [hattr] at h
+
+/-! ### §6 lines -/
+
+theorem splitLF_ne_nil (s : Str) : splitLF s ≠ [] := by
+  cases s with
+  | nil => simp [splitLF]
+  | cons c r =>
+    simp only [splitLF]
+    split
+    · simp
+    · split <;> simp
+
+theorem splitLF_cons_ne (c : Char) (r : Str) (hc : c ≠ '\n') :
+    ∃ h t, splitLF r = h :: t ∧ splitLF (c :: r) = (c :: h) :: t := by
+  have hne := splitLF_ne_nil r
+  cases hr : splitLF r with
+  | nil => exact absurd hr hne
+  | cons h t =>
+    refine ⟨h, t, rfl, ?_⟩
+    simp [splitLF, hc, hr]
+
+theorem joinWith_cons_cons (sep x y : Str) (r : List Str) :
+    joinWith sep (x :: y :: r) = x ++ sep ++ joinWith sep (y :: r) := rfl
+
+theorem joinWith_cons_ne (sep x : Str) (r : List Str) (h : r ≠ []) :
+    joinWith sep (x :: r) = x ++ sep ++ joinWith sep r := by
+  cases r with
+  | nil => exact absurd rfl h
+  | cons y r => rfl
+
+theorem joinWith_splitLF (s : Str) : joinWith ['\n'] (splitLF s) = s := by
+  induction s with
+  | nil => simp [splitLF, joinWith]
+  | cons c r ih =>
+    by_cases hc : c = '\n'
+    · subst hc
+      have : splitLF ('\n' :: r) = [] :: splitLF r := by simp [splitLF]
+      rw [this, joinWith_cons_ne _ _ _ (splitLF_ne_nil r), ih]; simp
+    · obtain ⟨h, t, hr, hcr⟩ := splitLF_cons_ne c r hc
+      rw [hcr]
+      rw [hr] at ih
+      cases t with
+      | nil => simp [joinWith] at ih ⊢; exact ih
+      | cons y t' =>
+        rw [joinWith_cons_cons] at ih ⊢
+        simp at ih ⊢; exact ih
+
+theorem splitLF_no_lf (s : Str) : ∀ l ∈ splitLF s, '\n' ∉ l := by
+  induction s with
+  | nil => simp [splitLF]
+  | cons c r ih =>
+    by_cases hc : c = '\n'
+    · subst hc
+      have : splitLF ('\n' :: r) = [] :: splitLF r := by simp [splitLF]
+      rw [this]; intro l hl
+      simp only [List.mem_cons] at hl
+      rcases hl with hl | hl
+      · subst hl; simp
+      · exact ih l hl
+    · obtain ⟨h, t, hr, hcr⟩ := splitLF_cons_ne c r hc
+      rw [hcr]; rw [hr] at ih
+      intro l hl
+      simp only [List.mem_cons] at hl
+      rcases hl with hl | hl
+      · subst hl
+        have := ih h (by simp)
+        simp only [List.mem_cons, not_or]
+        exact ⟨fun e => hc e.symm, this⟩
+      · exact ih l (by simp [hl])
+
+theorem splitLF_of_no_lf (l : Str) (h : '\n' ∉ l) : splitLF l = [l] := by
+  induction l with
+  | nil => simp [splitLF]
+  | cons c r ih =>
+    simp only [List.mem_cons, not_or] at h
+    have hc : c ≠ '\n' := fun e => h.1 e.symm
+    obtain ⟨hd, t, hr, hcr⟩ := splitLF_cons_ne c r hc
+    rw [hcr]
+    rw [ih h.2] at hr
+    simp at hr
+    rw [← hr.1, ← hr.2]
+
+theorem splitLF_append_lf (l rest : Str) (h : '\n' ∉ l) :
+    splitLF (l ++ '\n' :: rest) = l :: splitLF rest := by
+  induction l with
+  | nil => simp [splitLF]
+  | cons c r ih =>
+    simp only [List.mem_cons, not_or] at h
+    have hc : c ≠ '\n' := fun e => h.1 e.symm
+    obtain ⟨hd, t, hr, hcr⟩ := splitLF_cons_ne c (r ++ '\n' :: rest) hc
+    rw [List.cons_append, hcr]
+    rw [ih h.2] at hr
+    simp at hr
+    rw [← hr.1, ← hr.2]
+
+theorem splitLF_joinWith (ls : List Str) (hne : ls ≠ []) (h : ∀ l ∈ ls, '\n' ∉ l) :
+    splitLF (joinWith ['\n'] ls) = ls := by
+  induction ls with
+  | nil => exact absurd rfl hne
+  | cons x r ih =>
+    cases r with
+    | nil => simp [joinWith]; exact splitLF_of_no_lf x (h x (by simp))
+    | cons y r' =>
+      rw [joinWith_cons_cons]
+      have := ih (by simp) (fun l hl => h l (by simp [hl]))
+      simp only [List.append_assoc, List.singleton_append]
+      rw [splitLF_append_lf x _ (h x (by simp)), this]
+
+theorem splitLF_length (s : Str) : (splitLF s).length = (s.filter (· == '\n')).length + 1 := by
+  induction s with
+  | nil => simp [splitLF]
+  | cons c r ih =>
+    by_cases hc : c = '\n'
+    · subst hc
+      have : splitLF ('\n' :: r) = [] :: splitLF r := by simp [splitLF]
+      rw [this]; simp [ih]
+    · obtain ⟨h, t, hr, hcr⟩ := splitLF_cons_ne c r hc
+      rw [hcr]; rw [hr] at ih
+      have hb : (c == '\n') = false := by simp [hc]
+      simp only [List.filter, hb, List.length_cons] at ih ⊢
+      exact ih
+
+/-- the last piece is empty exactly for the empty text and a text that ends in a line feed -/
+theorem splitLF_getLast (s : Str) :
+    (splitLF s).getLast? = some [] ↔ (s = [] ∨ s.getLast? = some '\n') := by
+  induction s with
+  | nil => simp [splitLF]
+  | cons c r ih =>
+    by_cases hc : c = '\n'
+    · subst hc
+      have : splitLF ('\n' :: r) = [] :: splitLF r := by simp [splitLF]
+      rw [this]
+      have hne := splitLF_ne_nil r
+      rw [List.getLast?_cons_of_ne_nil hne] <;> try exact hne
+      rw [ih]
+      cases r with
+      | nil => simp
+      | cons d r' => simp [List.getLast?_cons_cons]
+    · obtain ⟨h, t, hr, hcr⟩ := splitLF_cons_ne c r hc
+      rw [hcr]
+      cases t with
+      | nil =>
+        -- one piece: no line feed in `r`
+        have hlen := splitLF_length r
+        rw [hr] at hlen
+        have hfil : r.filter (· == '\n') = [] := by
+          cases hf : r.filter (· == '\n') with
+          | nil => rfl
+          | cons _ _ => rw [hf] at hlen; simp at hlen
+        have hnot : '\n' ∉ r := by
+          intro hm
+          have : '\n' ∈ r.filter (· == '\n') := by simp [hm]
+          rw [hfil] at this; simp at this
+        simp only [List.getLast?_singleton, Option.some.injEq, List.cons_ne_nil, false_or, false_iff]
+        intro hl
+        cases r with
+        | nil => simp at hl; exact hc hl
+        | cons d r' =>
+          rw [List.getLast?_cons_cons] at hl
+          exact hnot (List.mem_of_getLast? hl)
+      | cons y t' =>
+        rw [hr] at ih
+        simp only [List.getLast?_cons_cons] at ih ⊢
+        rw [ih]
+        cases r with
+        | nil => simp [splitLF] at hr
+        | cons d r' => simp [List.getLast?_cons_cons]
+
+theorem mem_joinWith {c : Char} (sep : Str) (ls : List Str) (l : Str) (hl : l ∈ ls) (hc : c ∈ l) :
+    c ∈ joinWith sep ls := by
+  induction ls with
+  | nil => simp at hl
+  | cons x r ih =>
+    cases r with
+    | nil => simp at hl; subst hl; simpa [joinWith] using hc
+    | cons y r' =>
+      rw [joinWith_cons_cons]
+      simp only [List.mem_cons] at hl
+      rcases hl with hl | hl
+      · subst hl; simp [hc]
+      · have := ih (by simpa using hl); simp [this]
+
+theorem mem_of_mem_dropLast' {α : Type} {a : α} {l : List α} (h : a ∈ l.dropLast) : a ∈ l := by
+  rw [List.dropLast_eq_take] at h
+  exact List.mem_of_mem_take h
+
+theorem dropLast_append_last {α : Type} (l : List α) (x : α) (h : l.getLast? = some x) : l.dropLast ++ [x] = l := by
+  induction l with
+  | nil => simp at h
+  | cons a r ih =>
+    cases r with
+    | nil => simp at h; subst h; simp
+    | cons b r' =>
+      rw [List.getLast?_cons_cons] at h
+      simp only [List.dropLast_cons_cons, List.cons_append]
+      rw [ih h]
+
 end RF.Lemmas.OptRewrites
